@@ -16,8 +16,8 @@ Record commit := mkcommit {
   cm_anc : list N;  (* the three ancestors *)
   cm_ts : N;
   cm_pow : N;       (* 128-bit proof-of-work value of its mining blob under the block's seed *)
-  cm_bad_chains : bool  (* its OtherChains contain this network's id or a repeated network id:
-                           Commitment.MiningBlob() panics while sorting *)
+  cm_bad_chains : bool  (* its OtherChains contain this network's id or a repeated network id
+                           (Commitment.MiningBlob() would panic while sorting; PrevalidateBlock refuses it) *)
 }.
 
 Record block := mkblock {
@@ -158,7 +158,7 @@ Fixpoint sides_pow (ss : list commit) (b : block) : res unit :=
   | [] => Ok tt
   | s :: r =>
       _ <- guard (seedhash_id (cm_ts s) =? seedhash_id (b_ts b)) 611 ;;
-      _ <- (if cm_bad_chains s then Panic 9 else Ok tt) ;;
+      _ <- guard (negb (cm_bad_chains s)) 613 ;;
       x <- mul64 (b_diff b) 2 ;;
       ok <- valid_pow (cm_pow s) (x / 3) ;;
       _ <- guard ok 612 ;;
